@@ -315,6 +315,20 @@ pub fn configs(thorough: bool) -> Vec<Cfg> {
             }
         }
     }
+    // the ramp under saturating demand for thresholds that are NOT round numbers (q/c has a
+    // fractional part) over the whole stated range of periods: thorough takes every q in 30..=500
+    let sweep_q: Vec<u32> = if thorough { (30..=500).collect() } else { (30..=500).step_by(13).chain([31, 41, 61]).collect() };
+    let sweep_p: &[u32] = if thorough { &[1, 2, 3, 4, 5, 6, 7, 8, 9, 10, 11, 12, 13, 14, 15, 16, 17, 18, 19, 20] } else { &[1, 7, 8, 20] };
+    for q in sweep_q {
+        for c in [0u32, 2, 3, 4, 5, 6] {
+            if q < 10 * eff_c(c) {
+                continue;
+            }
+            for &p in sweep_p {
+                v.push(Cfg { q, c, p, grid_ms: if q > 200 { 1 } else { 5 }, phase_ms: 0, profile: Profile::Saturating });
+            }
+        }
+    }
     v
 }
 
